@@ -69,6 +69,7 @@ def run(ctx):
         "the core store model coq/Store/Model.v (tied to the code by C03/C04/C05) and the snapshot/restore model coq/Snapshot/Model.v, tied to agent/consul/fsm/snapshot_ce.go + state.Restore by this run: for every cut of every modelled history the records the real Persist wrote and the store the real Restore produced are compared with the model's, evaluated inside Coq",
         "modelled rather than verified: msgpack framing, the chunking-state record, go-memdb; tables outside the core model (ACL, config entries, intentions, CA, peering, coordinates, federation states, system metadata, autopilot, feature gates, virtual IPs, catalog index rows and derived catalog tables) are covered by the direct oracle on the real FSM only, not by the theorems",
         "SnapshotHeader.LastIndex and the prepared queries' ModifyIndex are not part of the model's state: the theorems quantify over all their values",
+        "C02_cut reuses C01's non-interference theorem for the lock-delay map (coq/FSM/NonInterference.v run_sim, same Store model)",
         "hypotheses of the theorems: Raft indexes are positive and SessionCreate never reuses a live session id (Session.Apply draws UUIDs until an unused one is found) -- wf_log",
         "the Go harness (harness/snaprestore): canonical field-by-field serialiser, lenient renderings for the open known findings, projected fields listed under projected_fields",
     ]
@@ -160,6 +161,11 @@ def run(ctx):
     # ---- evidence
     kinds = collections.Counter()
     errs = 0
+    lens = collections.Counter()
+    for h in wide + model:
+        lens[len(h["cmds"]) // 5 * 5] += 1
+    witness = [h for h in model if h["id"] == 1000]
+    witness_ok = bool(witness) and any(f["signature"].get("kind") == "check-service-fields-refreshed-by-restore" for f in witness[0]["failures"])
     for h in wide:
         for c in h["cmds"]:
             kinds[c["kind"].split(":")[0] + (":" + c["kind"].split(":")[1] if c["kind"].startswith(("kvs", "config")) else "")] += 1
@@ -190,6 +196,10 @@ def run(ctx):
         "tables_never_restored": (summary or {}).get("never_restored"),
         "restorer_record_types": (summary or {}).get("restorer_types"), "fsm_command_types": (summary or {}).get("command_types"),
         "projected_fields": (summary or {}).get("projected_fields"),
+        "history_length_histogram": {str(k): v for k, v in sorted(lens.items())},
+        "malformed_commands": sum(v for k, v in kinds.items() if k.startswith("malformed")),
+        "refutation_witness_replayed_on_implementation": witness_ok,
+        "lenient_renderings": "one per open known finding (harness/snaprestore/canon.go maskSet): a difference that survives ALL of them is a VIOLATION; a difference explained by one is reported under that finding's signature",
         "samples": [{"mix": h["mix"], "cmds": [c["desc"] for c in h["cmds"][:5]]} for h in wide[:2]] +
                    [{"mix": h["mix"], "cmds": h["cmds"][:3], "first_cut_records": h["cuts"][min(3, len(h["cuts"]) - 1)]["records"][:4]} for h in model[:1]],
         "exhaustive": False,
